@@ -1259,3 +1259,25 @@ def rule_rounded_digits_exact(ctx, rep, rid: str) -> None:
         else:
             line, why = bad[0]
             rep.bad(rid, key, f"{f.qual} is on the path from toFixed/toExponential/toPrecision to the digits and {why}" + (f" (and {len(bad) - 1} more)" if len(bad) > 1 else "") + ": the exact value of the double is lost before it is rounded - (1.45).toFixed(1) is 1.4 and (10.235).toFixed(2) is 10.23 because the doubles lie below the tie, (2.5).toFixed(0) is 3 because ties go up", f"{f.module.rel}:{line}")
+
+
+def rule_typed_array_sources(ctx, rep, rid: str) -> None:
+    """new TypedArray(x) is specified for four kinds of x: a length, an ArrayBuffer, another typed array, and any other
+    object (an array).  A constructor whose dispatch on the class of the argument leaves one of them to the final
+    `return <empty>` silently builds an empty array from it."""
+    rep.rule(rid, "the typed array constructor's dispatch on its first argument names the number types, the ArrayBuffer class, the array class and the typed array class before its catch-all", floor=1)
+    f = next((g for g in ctx.tree.funcs if g.name == "constructor_fn" and g.parent is not None and ctx.facts.canon_qual(g.parent.qual).endswith("_create_typed_array_constructor")), None)
+    if f is None:
+        raise AnalysisError(f"{rid}: the typed array constructor native was not found")
+    named: Set[str] = set()
+    for c in f.own_nodes():
+        if isinstance(c, ast.Call) and norm(c.func) == "isinstance" and len(c.args) == 2:
+            k = c.args[1]
+            named |= {norm(e) for e in (k.elts if isinstance(k, ast.Tuple) else [k])}
+    want = {"number": {"int", "float"}, "ArrayBuffer": {"JSArrayBuffer"}, "Array": {"JSArray"}, "typed array": {"JSTypedArray"}}
+    for kind, classes in want.items():
+        key = f"{f.qual}:source:{kind}"
+        if classes & named:
+            rep.ok(rid, key)
+        else:
+            rep.bad(rid, key, f"{f.qual} has no branch for a {kind} argument ({'/'.join(sorted(classes))} is never tested): it falls to the catch-all and `new Uint8Array(x)` is an empty array, whatever x holds", f.loc)
